@@ -313,6 +313,12 @@ def execute(p: Dict[str, Any]) -> Dict[str, Any]:
                 intact = fate in ("intact", "never_written", "killed") or not wrote_delta
                 if p.get("target_torn") and not p.get("full_sibling"):
                     tdata = open(cur_path, "rb").read()
+                    if int(p["cut"]) % 3 == 0 and p.get("compression", "none") == "none":
+                        # a file of the same layout written by other tooling (the repository's own tests write headers with
+                        # "schema": 1): the header line is a header whatever its schema field says
+                        tdata = tdata.replace(b'"schema":"snapshot:v1"', b'"schema":1', 1).replace(b'"schema": "snapshot:v1"', b'"schema": 1', 1)
+                        open(cur_path, "wb").write(tdata)
+                        stats["foreign_schema_header"] = 1
                     head = len(tdata.split(b"\n")[0])
                     tcut = {"header": head, "header_nl": head + 1, "mid": head + 1 + (len(tdata) - head - 1) // 2}[p["target_torn"]]
                     if tcut < len(tdata):
